@@ -2,6 +2,7 @@ from __future__ import annotations
 
 import asyncio
 from typing import TYPE_CHECKING, Awaitable, Callable, Iterable
+from uuid import uuid4
 
 from repid.connections.abc import ConsumerT
 from repid.connections.redis.utils import (
@@ -50,6 +51,8 @@ class _RedisConsumer(ConsumerT):
         self._in_hand: tuple[RoutingKeyT, str, ParametersT] | None = None
         # key of the message which was returned by the latest `consume` call
         self._last_consumed: RoutingKeyT | None = None
+        # written next to the processing mark of every message this consumer takes
+        self._holder_token = uuid4().hex
 
     async def start(self) -> None:
         self.consume_task = asyncio.create_task(self.backgroud_consume())
@@ -70,8 +73,10 @@ class _RedisConsumer(ConsumerT):
         to_reject: dict[str, RoutingKeyT] = {}
         if self._last_consumed is not None:
             # the caller of `consume` could have been cancelled before it has received the message:
-            # give the message back, if it is still marked as being processed
-            if await self.conn.hget(mnc(self._last_consumed), "_reject_to") is not None:
+            # give the message back, if it is still marked as being processed - by this consumer
+            # (it could have been rejected and taken by another consumer meanwhile)
+            holder = await self.conn.hget(mnc(self._last_consumed), "_holder")
+            if holder is not None and holder.decode() == self._holder_token:
                 to_reject[self._last_consumed.id_] = self._last_consumed
             self._last_consumed = None
         if self._in_hand is not None:
@@ -208,8 +213,10 @@ class _RedisConsumer(ConsumerT):
         pipe.zadd(self.broker.processing_queue, {msg_short_name: str(unix_time())})
         pipe.hset(
             full_message_name_from_short(msg_short_name, full_queue_name),
-            key="_reject_to",
-            value=get_queue_marker(full_queue_name),
+            mapping={
+                "_reject_to": get_queue_marker(full_queue_name),
+                "_holder": self._holder_token,
+            },
         )
 
     async def __get_message_name(
